@@ -74,6 +74,7 @@ def gen_hierarchy(rng, depth):
     names = [f"C{k}" for k in range(depth)]
     order = []
     pending = set()  # required parameters of the chain so far: a class above them has to forward **kwargs to super
+    pend_hist = []  # pending after each class
     for k, cname in enumerate(names):
         modi = 1 if (two_files and k == 0) else 0
         cur["module"] = modi
@@ -120,7 +121,8 @@ def gen_hierarchy(rng, depth):
                     style = f"super({names[k - 1]}, self)"
                     sp["forwards"].append(("super-after", names[k - 1], hard))
                     sp["kind"] = "super-skip"
-                    pending -= {p["name"] for p in specs[names[k - 1]]["own"]}
+                    # what the skipped parent provided (hard-coded) or required is out of the picture: back to the state below it
+                    pending = set(pend_hist[k - 2])
                 else:
                     sp["forwards"].append(("super", hard))
                 body.append(f"{style}.__init__({hs}**kwargs)")
@@ -213,6 +215,7 @@ def gen_hierarchy(rng, depth):
         specs[cname] = sp
         order.append(cname)
         pending = (pending - set(sp["hard"])) | {p["name"] for p in own if p["required"]}
+        pend_hist.append(set(pending))
         bases = ", ".join(parents)
         text = pre + (f"class {cname}({bases}):\n" if bases else f"class {cname}:\n")
         if sp["has_init"]:
